@@ -547,8 +547,7 @@ Section SetterSim.
   Lemma opaque_rel k l : length l = k -> Forall2 byte_rel (repeat AOpq k) l.
   Proof.
     intros L. apply (Forall2_of_nth byte_rel AOpq 0); [rewrite repeat_length; congruence|].
-    intros i Hi. rewrite repeat_length in Hi. rewrite (nth_indep _ AOpq AOpq) by (rewrite repeat_length; lia).
-    rewrite nth_repeat. exact I.
+    intros i Hi. rewrite nth_repeat. exact I.
   Qed.
 
   Lemma dbl_bytes_rel n s p d : Forall2 byte_rel (map (ADbl n s p d) (seq 0 n)) (add_double n s (deval rho d) p).
@@ -575,6 +574,342 @@ Section SetterSim.
     - destruct ((0 <=? len) && (Z.of_nat (length ap) + len <=? max_data_len)) eqn:L; [|discriminate].
       apply andb_true_iff in L. destruct L as [L0 L1]. apply Z.leb_le in L0. apply Z.leb_le in L1. inversion H; subst.
       eexists; split; [reflexivity|]. apply Forall2_app; [exact R|]. apply opaque_rel.
-      apply add_ais_str_length; unfold zlen; rewrite <- (Forall2_len _ _ _ R); lia.
+      assert (LL := Forall2_len _ _ _ R). apply add_ais_str_length; unfold zlen; lia.
   Qed.
 End SetterSim.
+
+(* ================================================================ the parser run *)
+Lemma concat_nth8 {A} (d:A) : forall ll, (forall i, (i < length ll)%nat -> length (nth i ll []) = 8%nat) ->
+  length (concat ll) = (8 * length ll)%nat /\
+  forall i t, (i < length ll)%nat -> (t < 8)%nat -> nth (8 * i + t) (concat ll) d = nth t (nth i ll []) d.
+Proof.
+  induction ll as [|l ll IH]; intros H; [split; [reflexivity|intros; simpl in *; lia]|].
+  assert (L8: length l = 8%nat) by (apply (H 0%nat); simpl; lia).
+  destruct IH as [Lc Nc]; [intros i Hi; apply (H (S i)); simpl; lia|].
+  split; [cbn [concat length]; rewrite app_length; lia|].
+  intros [|i] t Hi Ht; cbn [concat nth].
+  - rewrite app_nth1 by lia. f_equal; lia.
+  - rewrite app_nth2 by lia. rewrite L8. replace (8 * S i + t - 8)%nat with (8 * i + t)%nat by lia. apply Nc; simpl in Hi; lia.
+Qed.
+
+Lemma last_nth_len {A} (d:A) : forall l, last l d = nth (length l - 1) l d.
+Proof.
+  induction l as [|a [|b r] IH]; try reflexivity. change (last (a :: b :: r) d) with (last (b :: r) d). rewrite IH.
+  cbn [length]. replace (S (S (length r)) - 1)%nat with (S (length r)) by lia.
+  replace (S (length r) - 1)%nat with (length r) by lia. reflexivity.
+Qed.
+
+Lemma dexpr_eqb_eq x : forall y, dexpr_eqb x y = true -> x = y.
+Proof.
+  induction x; intros [] H; simpl in H; try discriminate.
+  - apply Nat.eqb_eq in H. now subst.
+  - apply Z.eqb_eq in H. now subst.
+  - apply Nat.eqb_eq in H. now subst.
+  - apply andb_true_iff in H. destruct H as [A B]. f_equal; [now apply IHx1|now apply IHx2].
+  - apply andb_true_iff in H. destruct H as [A B]. f_equal; [now apply IHx1|now apply IHx2].
+Qed.
+
+Lemma is_dbl_window_nth n s p d : forall l k, is_dbl_window l n s p d k = true ->
+  forall i, (i < length l)%nat -> nth i l AOpq = ADbl n s p d (k + i).
+Proof.
+  induction l as [|b l IH]; intros k H i Hi; [simpl in Hi; lia|]. cbn [is_dbl_window] in H.
+  destruct b; try discriminate. rewrite !andb_true_iff in H. destruct H as [[[[[A B] C] D] E] F].
+  apply Nat.eqb_eq in A. apply eqb_prop in B. apply Z.eqb_eq in C. apply dexpr_eqb_eq in D. apply Nat.eqb_eq in E. subst.
+  destruct i as [|i]; cbn [nth]; [f_equal; lia|]. rewrite (IH _ F i) by (simpl in Hi; lia). f_equal. lia.
+Qed.
+
+Lemma plain_noub r e : plain e = true -> iub r e = false.
+Proof. induction e; simpl; intros H; try discriminate; try reflexivity. now apply IHe. Qed.
+
+Lemma zero_av_val beta v z : is_zero_av v = true -> represents beta v z -> z = 0.
+Proof.
+  unfold is_zero_av. rewrite andb_true_iff, forallb_forall. intros [F S] R.
+  apply Z.bits_inj_0. intros k. destruct (Z.neg_nonneg_cases k) as [Hk|Hk]; [now apply Z.testbit_neg_r|].
+  rewrite <- (Z2Nat.id k Hk), R.
+  assert (In (bit_at v (Z.to_nat k)) (sgn v :: bits v)) by apply bit_at_in.
+  destruct H as [H|H]; [rewrite <- H; apply bt_eqb_eq in S; rewrite S; reflexivity|].
+  apply F in H. apply bt_eqb_eq in H. rewrite <- H. reflexivity.
+Qed.
+
+Section ParserSim.
+  Variable beta : nat -> Z.
+  Variable rho : env.
+  Variable pargs : list argval.
+  Variable m : msg.
+  Variable ap : list abyte.
+  Hypothesis Hdata : Forall2 (byte_rel beta rho) ap (m_data m).
+  Hypothesis Hlen : m_len m = zlen (m_data m).
+
+  Definition slot_rel (a:aslot) (v:option argval) : Prop :=
+    match a with
+    | SInt x => exists z, v = Some (VI z) /\ represents beta x z
+    | SDbl n s p def d => v = Some (VD (scaled_rt n s p def (deval rho d)))
+    | SOther => True
+    end.
+
+  Definition st_rel (x:ast) (st:pst) : Prop :=
+    ps_idx st = a_idx x /\ ps_ret st = a_ret x /\ ps_ub st = false /\ ps_unsup st = false /\
+    (forall k s, alookup k (a_slots x) = Some s -> slot_rel s (lookup k (ps_slots st))) /\
+    (forall j s, alookup j (a_outs x) = Some s -> slot_rel s (lookup j (ps_outs st))).
+
+  Lemma inside_fits idx n : inside ap idx (Z.of_nat n) = true -> fits n idx (m_len m) = true /\ 0 <= idx /\ (Z.to_nat idx + n <= length ap)%nat.
+  Proof.
+    unfold inside, fits. rewrite andb_true_iff, !Z.leb_le. intros [A B].
+    rewrite Hlen. unfold zlen. rewrite <- (Forall2_len _ _ _ Hdata). split; [apply andb_true_iff; rewrite !Z.leb_le; lia|lia].
+  Qed.
+
+  Lemma window_rel idx n : Forall2 (byte_rel beta rho) (window ap idx n) (field n idx (m_data m)).
+  Proof. unfold window, field. apply Forall2_firstn, Forall2_skipn, Hdata. Qed.
+
+  Lemma window_len idx n : (Z.to_nat idx + n <= length ap)%nat -> length (window ap idx n) = n.
+  Proof. intros H. unfold window. rewrite firstn_length, skipn_length. lia. Qed.
+
+  Lemma read_int_rel n (s:bool) def idx ll : inside ap idx (Z.of_nat n) = true -> (0 < n)%nat ->
+    sequence (map bits_of_abyte (window ap idx n)) = Some ll ->
+    exists z, get_int n s def idx (m_len m) (m_data m) = (z, idx + Z.of_nat n) /\
+              represents beta {| bits := concat ll; sgn := if s then last (concat ll) B0 else B0 |} z.
+  Proof.
+    intros In Hn Sq. destruct (inside_fits idx n In) as [F [I0 IL]].
+    unfold get_int. rewrite F. eexists; split; [reflexivity|].
+    assert (WL := window_len idx n IL). assert (WR := window_rel idx n).
+    set (fl := field n idx (m_data m)) in *. set (wd := window ap idx n) in *.
+    assert (FL: length fl = n) by (rewrite <- (Forall2_len _ _ _ WR); exact WL).
+    destruct (sequence_nth _ _ Sq) as [LL NN]. rewrite map_length, WL in LL. rewrite map_length, WL in NN.
+    assert (Each: forall i, (i < n)%nat -> length (nth i ll []) = 8%nat /\ byte_range (nth i fl 0) /\
+               forall t, (t < 8)%nat -> Z.testbit (nth i fl 0) (Z.of_nat t) = bt_val beta (nth t (nth i ll []) B0)).
+    { intros i Hi. specialize (NN i [] Hi).
+      rewrite (nth_indep _ None (bits_of_abyte AOpq)) in NN by (rewrite map_length; lia). rewrite map_nth in NN.
+      assert (Q := Forall2_nth_rel _ AOpq 0 _ _ WR i ltac:(lia)).
+      destruct (nth i wd AOpq); try discriminate. simpl in NN. injection NN as NN'. rewrite <- NN'. exact Q. }
+    destruct (concat_nth8 B0 ll) as [CL CN]; [intros i Hi; apply Each; lia|]. rewrite LL in CL.
+    assert (FR: Forall byte_range fl).
+    { apply Forall_forall. intros b Hb. destruct (In_nth _ _ 0 Hb) as [i [Hi Hn']]. rewrite <- Hn'. apply Each. lia. }
+    assert (UR := of_le_range fl FR). rewrite FL in UR.
+    assert (Ubit: forall j, (j < 8 * n)%nat -> Z.testbit (of_le fl) (Z.of_nat j) = bt_val beta (nth j (concat ll) B0)).
+    { intros j Hj. assert (D := Nat.div_mod j 8 ltac:(lia)). set (i := (j / 8)%nat) in *. set (t := (j mod 8)%nat) in *.
+      assert (Ht: (t < 8)%nat) by (apply Nat.mod_upper_bound; lia). assert (Hi: (i < n)%nat) by lia.
+      rewrite D at 2. rewrite CN by lia.
+      replace (Z.of_nat j) with (8 * Z.of_nat i + Z.of_nat t) by lia. rewrite of_le_bit by (try assumption; lia).
+      apply Each; assumption. }
+    unfold get_code. fold fl. intros j. unfold bit_at. cbn [bits sgn].
+    destruct (Nat.lt_ge_cases j (8 * n)) as [Hj|Hj].
+    - destruct s; [rewrite to_signed_bit by (try assumption; lia); replace (Z.of_nat j <? 8 * Z.of_nat n) with true by (symmetry; apply Z.ltb_lt; lia)|];
+        rewrite Ubit by exact Hj; f_equal; apply nth_indep; rewrite CL; lia.
+    - rewrite nth_overflow by lia. destruct s.
+      + rewrite to_signed_bit by (try assumption; lia). replace (Z.of_nat j <? 8 * Z.of_nat n) with false by (symmetry; apply Z.ltb_ge; lia).
+        rewrite last_nth_len, CL. replace (8 * Z.of_nat n - 1) with (Z.of_nat (8 * n - 1)) by lia. apply Ubit. lia.
+      + simpl. rewrite pow256 in UR. apply (small_bits (of_le fl) (8 * Z.of_nat n)); lia.
+  Qed.
+
+  Lemma read_dbl_rel n s p def d idx : inside ap idx (Z.of_nat n) = true -> (0 < n)%nat ->
+    is_dbl_window (window ap idx n) n s p d 0 = true ->
+    get_double n s p def idx (m_len m) (m_data m) = (scaled_rt n s p def (deval rho d), idx + Z.of_nat n).
+  Proof.
+    intros In Hn W. destruct (inside_fits idx n In) as [F [I0 IL]].
+    assert (WL := window_len idx n IL). assert (WR := window_rel idx n).
+    set (fl := field n idx (m_data m)) in *.
+    assert (FL: length fl = n) by (rewrite <- (Forall2_len _ _ _ WR); exact WL).
+    assert (E: fl = add_double n s (deval rho d) p).
+    { apply (nth_ext _ _ 0 0); [rewrite FL, add_double_length; reflexivity|]. intros i Hi. rewrite FL in Hi.
+      assert (Q := Forall2_nth_rel _ AOpq 0 _ _ WR i ltac:(lia)). fold fl in Q.
+      rewrite (is_dbl_window_nth n s p d _ 0 W i) in Q by lia. exact Q. }
+    unfold scaled_rt, get_double. rewrite F, fits_0. cbn [fst]. unfold get_code. fold fl. rewrite E.
+    unfold field. cbn [Z.to_nat skipn]. rewrite firstn_all2 by (rewrite add_double_length; lia). reflexivity.
+  Qed.
+
+  Lemma alookup_cons k k' s l : alookup k' ((k, s) :: l) = if Nat.eqb k k' then Some s else alookup k' l.
+  Proof. reflexivity. Qed.
+  Lemma lookup_cons k k' (v:argval) l : lookup k' ((k, v) :: l) = if Nat.eqb k k' then Some v else lookup k' l.
+  Proof. reflexivity. Qed.
+
+  Lemma rel_bind x st k s v : st_rel x st -> slot_rel s (Some v) -> st_rel (abind k s x) (bind k v st).
+  Proof.
+    intros (A & B & C & D & E & F) R. repeat split; try assumption.
+    intros k' s'. cbn [a_slots abind ps_slots bind]. rewrite alookup_cons, lookup_cons.
+    destruct (Nat.eqb k k'); [intros Q; inversion Q; subst; exact R|apply E].
+  Qed.
+
+  Lemma rel_idx x st i : st_rel x st -> st_rel (aset_idx i x) (set_idx i st).
+  Proof. intros (A & B & C & D & E & F). repeat split; assumption. Qed.
+
+  Lemma rel_out x st j s v : st_rel x st -> slot_rel s (Some v) -> st_rel (aadd_out j s x) (add_out j v st).
+  Proof.
+    intros (A & B & C & D & E & F) R. repeat split; try assumption.
+    intros k' s'. cbn [a_outs aadd_out ps_outs add_out]. rewrite alookup_cons, lookup_cons.
+    destruct (Nat.eqb j k'); [intros Q; inversion Q; subst; exact R|apply F].
+  Qed.
+
+  Lemma rel_noflag x st : st_rel x st -> st_rel x (flag_ub false st).
+  Proof. intros (A & B & C & D & E & F). repeat split; try assumption. cbn [ps_ub flag_ub]. rewrite C. reflexivity. Qed.
+
+  Lemma rel_nounsup x st : st_rel x st -> st_rel x (flag_unsup false st).
+  Proof. intros (A & B & C & D & E & F). repeat split; try assumption. cbn [ps_unsup flag_unsup]. rewrite D. reflexivity. Qed.
+
+  Lemma slot_env_sound x st : st_rel x st ->
+    forall k v, ae_slot (slot_env (a_slots x)) k = Some v -> represents beta v (slot_int (e_slots (penv pargs m st)) k).
+  Proof.
+    intros (A & B & C & D & E & F) k v. cbn [ae_slot slot_env].
+    destruct (alookup k (a_slots x)) as [[w| |]|] eqn:Q; try discriminate. intros H; inversion H; subst.
+    destruct (E _ _ Q) as [z [L R]]. cbn [e_slots penv]. unfold slot_int. rewrite L. exact R.
+  Qed.
+
+  Lemma rel_ret x st b : st_rel x st -> st_rel (aset_ret b x) (set_ret b st).
+  Proof. intros (A & B & C & D & E & F). repeat split; assumption. Qed.
+
+  Lemma rel_out_skip x st j : st_rel x st -> st_rel (aadd_out j SOther x) st.
+  Proof.
+    intros (A & B & C & D & E & F). repeat split; try assumption.
+    intros k' s'. cbn [a_outs aadd_out]. rewrite alookup_cons.
+    destruct (Nat.eqb j k'); [intros Q; inversion Q; subst; exact I|apply F].
+  Qed.
+
+  Lemma arun_sim p : forall x x' st, arun ap p x = Some x' -> st_rel x st -> st_rel x' (exec_p pargs m p st).
+  Proof.
+    induction p; intros x x' st H R; assert (R' := R); destruct R' as (RI & RR & RU & RS & RSl & RO);
+      cbn [arun] in H; cbn [exec_p]; rewrite RR; destruct (a_ret x) eqn:AR;
+      try (inversion H; subst; exact R).
+    - (* PSeq *)
+      destruct (arun ap p1 x) as [x1|] eqn:E1; [cbn [obind] in H|discriminate].
+      apply (IHp2 x1 x' _ H). apply (IHp1 x x1 st E1 R).
+    - (* PRead *)
+      destruct r.
+      + destruct (inside ap (a_idx x) (Z.of_nat n) && Nat.ltb 0 n) eqn:C; [|discriminate].
+        apply andb_true_iff in C. destruct C as [In Hn]. apply Nat.ltb_lt in Hn.
+        destruct (sequence (map bits_of_abyte (window ap (a_idx x) n))) as [ll|] eqn:Sq; [|discriminate]. inversion H; subst x'; clear H.
+        cbn [exec_read]. rewrite RI. destruct (read_int_rel n s def (a_idx x) ll In Hn Sq) as [z [G Rz]]. rewrite G.
+        apply rel_idx, rel_bind; [exact R|]. exists z. split; [reflexivity|exact Rz].
+      + destruct (inside ap (a_idx x) (Z.of_nat n) && Nat.ltb 0 n) eqn:C; [|discriminate].
+        apply andb_true_iff in C. destruct C as [In Hn]. apply Nat.ltb_lt in Hn.
+        destruct (window ap (a_idx x) n) as [|[|n' s' p' d i'|] r] eqn:W; try discriminate.
+        destruct i'; try discriminate.
+        destruct (is_dbl_window (ADbl n' s' p' d 0 :: r) n s pbits d 0) eqn:DW; [|discriminate]. inversion H; subst x'; clear H.
+        rewrite <- W in DW. cbn [exec_read]. rewrite RI. rewrite (read_dbl_rel n s pbits defbits d (a_idx x) In Hn DW).
+        apply rel_idx, rel_bind; [exact R|]. reflexivity.
+      + destruct (inside ap (a_idx x) len && (0 <=? len) && plain size) eqn:C; [|discriminate].
+        rewrite !andb_true_iff in C. destruct C as [[In L0] Pl]. apply Z.leb_le in L0. inversion H; subst x'; clear H.
+        cbn [exec_read]. rewrite RI. rewrite (plain_noub _ _ Pl).
+        unfold inside in In. apply andb_true_iff in In. destruct In as [I0 I1].
+        assert (Fit: (0 <=? a_idx x) && (a_idx x + len <=? m_len m) = true).
+        { rewrite Hlen. unfold zlen. rewrite <- (Forall2_len _ _ _ Hdata). now rewrite I0, I1. }
+        unfold get_str. destruct (ieval (penv pargs m st) size =? 0).
+        * apply rel_noflag, rel_idx, rel_bind; [apply rel_bind; [exact R|exact I]|exact I].
+        * rewrite Fit. apply rel_noflag, rel_idx, rel_bind; [apply rel_bind; [exact R|exact I]|exact I].
+      + discriminate.
+    - (* PSetIdx *) destruct e; try discriminate. inversion H; subst x'. cbn [iub ieval]. apply rel_noflag, rel_idx, R.
+    - (* PAddIdx *) destruct e; try discriminate. inversion H; subst x'. cbn [iub ieval]. rewrite RI. apply rel_noflag, rel_idx, R.
+    - (* POutI *)
+      destruct (abs (slot_env (a_slots x)) e) as [v|] eqn:E; [|discriminate]. inversion H; subst x'; clear H.
+      destruct (abs_sound beta (slot_env (a_slots x)) (penv pargs m st)) with (e := e) (v := v) as [Rv U].
+      * intros a y Q. discriminate Q.
+      * apply slot_env_sound, R.
+      * exact E.
+      * rewrite U. apply rel_noflag, rel_out; [exact R|]. eexists; split; [reflexivity|exact Rv].
+    - (* POutD *)
+      destruct d; try (inversion H; subst x'; apply rel_out; [exact R|exact I]).
+      destruct (alookup k (a_slots x)) as [[|n s p def d|]|] eqn:Q; try discriminate. inversion H; subst x'; clear H.
+      assert (L := RSl _ _ Q). cbn [slot_rel] in L. apply rel_out; [exact R|]. cbn [slot_rel deval penv e_slots]. unfold slot_dbl. rewrite L. reflexivity.
+    - (* POutT *)
+      inversion H; subst x'. destruct (lookup k (ps_slots st)) as [[| | |t]|]; try (apply rel_out_skip, R). apply rel_out; [exact R|exact I].
+    - (* PIf *)
+      destruct p1; try discriminate. destruct e; try discriminate. destruct z; try discriminate. destruct p2; try discriminate.
+      destruct (abs (slot_env (a_slots x)) c) as [v|] eqn:E; [|discriminate].
+      destruct (is_zero_av v) eqn:Zv; [|discriminate]. inversion H; subst x'; clear H.
+      destruct (abs_sound beta (slot_env (a_slots x)) (penv pargs m st)) with (e := c) (v := v) as [Rv U].
+      * intros a y Q. discriminate Q.
+      * apply slot_env_sound, R.
+      * exact E.
+      * rewrite U. rewrite (zero_av_val beta v _ Zv Rv). cbn [Z.eqb exec_p].
+        destruct (ps_ret (flag_ub false st)); apply rel_noflag, R.
+    - (* PRet *) destruct e; try discriminate. inversion H; subst x'. cbn [iub ieval]. apply rel_noflag, rel_ret, R.
+  Qed.
+End ParserSim.
+
+(* ================================================================ the round trip theorem *)
+Lemma sequence_in {A} : forall (l:list (option A)) r x, sequence l = Some r -> In x r -> In (Some x) l.
+Proof.
+  induction l as [|[y|] l IH]; simpl; intros r x H Hin.
+  - inversion H; subst. destruct Hin.
+  - destruct (sequence l) as [t|] eqn:E; [|discriminate]. inversion H; subst. destruct Hin as [->|Hin]; [now left|right; eapply IH; eauto].
+  - discriminate.
+Qed.
+
+Lemma Forall2_nth_error {A B} (R:A -> B -> Prop) : forall l m, Forall2 R l m -> forall a x, nth_error l a = Some x ->
+  exists y, nth_error m a = Some y /\ R x y.
+Proof.
+  induction 1; intros [|a] z H1; simpl in *; try discriminate.
+  - inversion H1; subst. eauto.
+  - eauto.
+Qed.
+
+Theorem roundtrip_sound : roundtrip_sound_stmt.
+Proof.
+  intros s p gamma mm descs H sargs pargs garbage IR.
+  unfold rt_descs in H.
+  destruct (forallb2 narrower gamma (s_args s)); [|discriminate].
+  destruct (aset (arg_env (s_args s)) (s_body s) []) as [apt|]; [|discriminate].
+  destruct (rt_run s p gamma) as [[ap x']|] eqn:RR; [|discriminate].
+  destruct (forallb (abyte_within gamma) apt && match a_ret x' with Some true => true | _ => false end) eqn:C; [|discriminate].
+  apply andb_true_iff in C. destruct C as [_ Cret].
+  unfold rt_run in RR. destruct (p_guard p) as [n|] eqn:G; [|discriminate].
+  destruct (n =? s_pgn s) eqn:Pn; [|discriminate]. apply Z.eqb_eq in Pn.
+  destruct (aset (arg_env gamma) (s_body s) []) as [ap0|] eqn:AS; [cbn [obind] in RR|discriminate].
+  destruct (arun ap0 (p_body p) ast0) as [x0|] eqn:AR; [|discriminate]. inversion RR; subst ap0 x0; clear RR.
+  set (beta := fun a => arg_int sargs a). set (rho := set_env s sargs).
+  assert (Harg: forall a x, ae_arg (arg_env gamma) a = Some x -> represents beta x (arg_int (e_args rho) a)).
+  { intros a x. cbn [ae_arg arg_env]. destruct (nth_error gamma a) as [[w sg| |]|] eqn:Ga; try discriminate.
+    destruct (0 <? w) eqn:W; [|discriminate]. apply Z.ltb_lt in W. intros Q; inversion Q; subst x.
+    destruct (Forall2_nth_error _ _ _ IR a _ Ga) as [v [Hv Ok]]. destruct v; try contradiction. cbn [arg_ok] in Ok.
+    cbn [e_args rho set_env]. apply rep_arg; [exact W|]. unfold beta, arg_int. rewrite Hv. exact Ok. }
+  assert (Hslot: forall k x, ae_slot (arg_env gamma) k = Some x -> represents beta x (slot_int (e_slots rho) k)) by (intros k x Q; discriminate Q).
+  destruct (aset_sim beta rho (arg_env gamma) Harg Hslot (s_body s) [] ap [] AS (Forall2_nil _)) as [data [XW RD]].
+  set (msg := {| m_pgn := s_pgn s; m_prio := (if s_prio s <? 0 then default_prio else s_prio s);
+                 m_dest := match s_dest s with Some e => wrapz 8 false (ieval rho e) | None => default_dest end;
+                 m_len := zlen data; m_data := data |}).
+  exists msg. split.
+  { unfold exec_set. fold rho. rewrite XW. reflexivity. }
+  assert (LG: exec_parse p pargs (with_garbage msg garbage) = exec_parse p pargs msg).
+  { apply locality; try reflexivity. cbn [with_garbage m_len m_data msg]. unfold zlen. rewrite Nat2Z.id.
+    rewrite firstn_app, firstn_all, Nat.sub_diag. cbn [firstn]. now rewrite app_nil_r. }
+  cbv zeta. rewrite LG. unfold exec_parse. rewrite G. cbn [m_pgn msg]. rewrite <- Pn, Z.eqb_refl.
+  assert (S0: st_rel beta rho ast0 pst0).
+  { repeat split; try reflexivity; intros k t Q; discriminate Q. }
+  assert (SIM := arun_sim beta rho pargs msg ap RD eq_refl (p_body p) ast0 x' pst0 AR S0).
+  destruct SIM as (SI & SR & SU & SS & SSl & SO).
+  cbn [r_ret r_ub r_unsup]. rewrite SR, SU, SS.
+  destruct (a_ret x') as [[|]|]; try discriminate. repeat split; try reflexivity.
+  intros j a d Hin. apply (sequence_in _ _ _ H) in Hin. apply in_map_iff in Hin. destruct Hin as [[j' a'] [Hd _]].
+  cbn [fst snd] in Hd. destruct (out_desc gamma (a_outs x') j' a') as [d'|] eqn:OD; [|discriminate]. inversion Hd; subst j' a' d'; clear Hd.
+  unfold out_desc in OD. unfold out_of. cbn [r_outs].
+  destruct (alookup j (a_outs x')) as [[v|nn sg pp def dd|]|] eqn:AL; try discriminate.
+  - destruct (nth_error gamma a) as [[w sg| |]|] eqn:Ga; try discriminate.
+    destruct ((0 <? w) && av_eqb v (av_arg a w sg)) eqn:Q; [|discriminate]. inversion OD; subst d; clear OD.
+    apply andb_true_iff in Q. destruct Q as [W EQ]. apply Z.ltb_lt in W.
+    destruct (SO _ _ AL) as [z [Lz Rz]].
+    destruct (Forall2_nth_error _ _ _ IR a _ Ga) as [va [Hv Ok]]. destruct va as [za| | |]; try contradiction. cbn [arg_ok] in Ok.
+    exists (VI za). split; [exact Hv|]. rewrite Lz. cbn [expected]. do 2 f_equal.
+    apply (rep_inj beta v (av_arg a w sg) z za EQ Rz).
+    replace za with (beta a) by (unfold beta, arg_int; now rewrite Hv). apply rep_arg; [exact W|].
+    unfold beta, arg_int. rewrite Hv. exact Ok.
+  - destruct dd; try discriminate. destruct (nth_error gamma a) as [[| |]|] eqn:Ga; try discriminate.
+    destruct (Nat.eqb a0 a) eqn:Q; [|discriminate]. apply Nat.eqb_eq in Q. subst a0. inversion OD; subst d; clear OD.
+    assert (L := SO _ _ AL). cbn [slot_rel] in L.
+    destruct (Forall2_nth_error _ _ _ IR a _ Ga) as [va [Hv Ok]]. destruct va as [|b| |]; try contradiction.
+    exists (VD b). split; [exact Hv|]. rewrite L. cbn [expected deval]. unfold rho. cbn [e_args set_env]. unfold arg_dbl. rewrite Hv. reflexivity.
+Qed.
+
+Theorem scaled_rt_spec : scaled_rt_spec_stmt.
+Proof.
+  intros n s p def Wn W8. split.
+  - unfold scaled_rt. assert (Q := na_roundtrip n s p p def [] Wn W8). rewrite app_nil_r in Q. rewrite Q. reflexivity.
+  - intros v Hv. destruct (add_double_na n s p Wn W8) as [_ Ex]. destruct (Ex v Hv) as [c [Rc Ec]].
+    exists c. split; [exact Rc|]. split; [exact Ec|].
+    unfold scaled_rt, get_double. rewrite fits_0, Ec. cbv zeta. cbn [fst].
+    assert (B := bytes_roundtrip n s c [] [] (width_pos n Wn)). cbn [length app] in B. rewrite app_nil_r in B.
+    change (Z.of_nat 0) with 0 in B. rewrite B by (unfold nac; lia).
+    replace (c =? nac n s) with false by (symmetry; apply Z.eqb_neq; unfold nac; lia). reflexivity.
+Qed.
+
+Print Assumptions guard_sound.
+Print Assumptions locality.
+Print Assumptions roundtrip_sound.
+Print Assumptions scaled_rt_spec.
